@@ -403,3 +403,48 @@ theorem decodeBody_attached (v : Version) (hf : v.family = .v3 ∨ v.family = .v
     simp [actionsToMsgs_map]
 
 end Tongo.Wallet
+
+namespace Tongo.Wallet
+open Tongo Tongo.Bits
+
+theorem attached_ordinary (v : Version) (sig : List UInt8) (c : Cell) :
+    Cell.ordinary (attached v sig c).bits (attached v sig c).refs = attached v sig c := by
+  unfold attached; split <;> rfl
+
+theorem verifierOf_sigFirst (v : Version) (hv : v.family ≠ .v1v2) : verifierOf v = some (!sigFirst v) := by
+  unfold verifierOf sigFirst
+  cases h : v.family <;> simp_all
+
+/-- a state-init argument of the envelope that the decoder accepts: none, or a wallet state-init -/
+theorem envelope_init_ok (code data : Cell) (withInit : Bool) :
+    ∀ si, (if withInit then some (stateInitCell code data) else none) = some si →
+      si.ty ≠ tyLibrary ∧ ∃ r, skipStateInit (CellR.ofCell si) = .ok r := by
+  intro si hsi
+  cases withInit with
+  | false => simp at hsi
+  | true =>
+    simp only [↓reduceIte, Option.some.injEq] at hsi
+    subst hsi
+    exact ⟨by simp [stateInitCell, Cell.ordinary, Cell.ty, tyLibrary], _, skipStateInit_stateInitCell code data⟩
+
+/-- the verifier of the version accepts, under the signer's public key, the envelope around any ordinary cell signed
+and attached the way the version does it -/
+theorem verifySignature_attached (H : List UInt8 → List UInt8) (sign : List UInt8 → List UInt8 → List UInt8)
+    (verify : List UInt8 → List UInt8 → List UInt8 → Bool) (pub : List UInt8 → List UInt8)
+    (hsc : ∀ sk m, verify (pub sk) m (sign sk m) = true) (hsl : ∀ sk m, (sign sk m).length = 64)
+    (sk : List UInt8) (hpk : (pub sk).length = 32) (v : Version) (hv : v.family ≠ .v1v2)
+    (c : Cell) (hty : c.ty = 0) (hmask : c.mask = 0) (hdc : c.depthO ≤ maxDepth)
+    (self : Address) (hh : self.hash.length = 32) (code data : Cell) (withInit : Bool)
+    (hdep : (envelope self (attached v (sign sk (c.hashO H)) c) (if withInit then some (stateInitCell code data) else none)).depthO ≤ maxDepth) :
+    verifySignature H verify v
+      (envelope self (attached v (sign sk (c.hashO H)) c) (if withInit then some (stateInitCell code data) else none)) (pub sk) = .ok true := by
+  have hdec := decodeExtMessage_envelope self hh (attached v (sign sk (c.hashO H)) c)
+    (if withInit then some (stateInitCell code data) else none) (envelope_init_ok code data withInit) hdep
+  unfold verifySignature
+  rw [verifierOf_sigFirst v hv, hdec]
+  simp only [bind, Outcome.bind, attached_ordinary]
+  unfold attached
+  rw [splitSignature_attached H (sigFirst v) _ (hsl _ _) c hty hmask hdc]
+  simp [edVerify, hpk, hsc sk]
+
+end Tongo.Wallet
